@@ -2,7 +2,17 @@
 //@ rw R6 1 <<events: RefCell<Events>,>> => <<pub(crate) events: RefCell<Events>,>>
 //@ rw R6 1 <<level_triggered: Option<RefCell<HashMap<usize, (Raw, polling::Event)>>>,>> => <<pub(crate) level_triggered: Option<RefCell<HashMap<usize, (Raw, polling::Event)>>>,>>
 //@ enditem
+//@ region poll_witness props=C12,C14
+impl Poll {
+    /// monotone history witness (DESIGN 2.12): poll(timeout) has been called on this Poll with this timeout
+    pub uninterp spec fn w_polled(&self, timeout: Option<Duration>) -> bool;
+}
+//@ endregion
 //@ open src/sys.rs / impl Poll
+//@ item src/sys.rs / impl Poll / fn poll props=C12,C14 sigonly ret=r
+//@ spec
+        ensures self.w_polled(timeout),
+//@ enditem
 //@ item src/sys.rs / impl Poll / fn register props=C16 sigonly ret=r
 //@ enditem
 //@ item src/sys.rs / impl Poll / fn reregister props=C16 sigonly ret=r
